@@ -36,7 +36,8 @@ var verifDir = func() string {
 	return "/verif"
 }()
 
-const (	goRoot   = "/opt/veriftools/go1.26.8"
+const (
+	goRoot   = "/opt/veriftools/go1.26.8"
 	hookPath = "github.com/tmaxmax/go-sse/verifhook"
 )
 
@@ -211,6 +212,7 @@ type workerResult struct {
 	Keys          []uint64       `json:"keys"`
 	KeysSaturated bool           `json:"keys_saturated"`
 	States        []uint64       `json:"states"`
+	Scheds        []uint64       `json:"scheds"`
 	Faults        map[string]int `json:"faults"`
 	Probes        map[string]int `json:"probes"`
 	SimTimeS      float64        `json:"sim_time_s"`
@@ -364,6 +366,7 @@ func check(prop, tr string) int {
 	// merge
 	keys := map[uint64]struct{}{}
 	states := map[uint64]struct{}{}
+	scheds := map[uint64]struct{}{}
 	faults := map[string]int{}
 	probes := map[string]int{}
 	other := map[string]int{}
@@ -386,6 +389,9 @@ func check(prop, tr string) int {
 		}
 		for _, k := range r.States {
 			states[k] = struct{}{}
+		}
+		for _, k := range r.Scheds {
+			scheds[k] = struct{}{}
 		}
 		for k, v := range r.Faults {
 			faults[k] += v
@@ -450,6 +456,7 @@ func check(prop, tr string) int {
 		"nontrivial_evaluations":    nontriv,
 		"distinct_keys_saturated":   saturated,
 		"distinct_abstract_states":  len(states),
+		"distinct_schedules":        len(scheds),
 		"runs_per_hour":             int(float64(evals) / maxf(wall-buildS, 0.001) * 3600),
 		"seeds_per_hour":            int(3600 / maxf(wall, 0.001)),
 		"simulated_time_s":          simS,
